@@ -1226,6 +1226,7 @@ package otto
 //@ func (Value).export
 //@   props C15 C16
 //@   nosafety
+//@   abstract_callee (*object).get
 //@   ensures v.kind == valueNumber || v.kind == valueBoolean ==> result == v.value
 //@   ensures v.kind == valueUndefined || v.kind == valueNull ==> result == nil
 //@   ensures v.kind == valueString && is(v.value, string) ==> is(result, string) && result.(string) == v.value.(string)
